@@ -531,6 +531,9 @@ func (s *Store) bvBin(op Op, a, b *Term) *Term {
 			return a
 		}
 	}
+	if (op == OBVAdd || op == OBVMul || op == OBVAnd || op == OBVOr || op == OBVXor) && a.ID > b.ID {
+		a, b = b, a
+	}
 	return s.mk(&Term{Op: op, Sort: a.Sort, Args: []*Term{a, b}})
 }
 
@@ -674,6 +677,10 @@ func (s *Store) fpBin(op Op, a, b *Term) *Term {
 				return s.F64C(x / y)
 			}
 		}
+	}
+	// IEEE addition and multiplication are commutative (SMT-LIB has a single NaN): one operand order
+	if (op == OFPAdd || op == OFPMul) && a.ID > b.ID {
+		a, b = b, a
 	}
 	return s.mk(&Term{Op: op, Sort: a.Sort, Args: []*Term{a, b}})
 }
@@ -885,6 +892,9 @@ func (s *Store) rBin(op Op, a, b *Term) *Term {
 		if b.IsConst() && b.R.Cmp(big.NewRat(1, 1)) == 0 {
 			return a
 		}
+	}
+	if (op == ORAdd || op == ORMul) && a.ID > b.ID {
+		a, b = b, a
 	}
 	return s.mk(&Term{Op: op, Sort: a.Sort, Args: []*Term{a, b}})
 }
